@@ -837,7 +837,7 @@ func (m *c19Model) nilAtom(vars map[types.Object]bool, isNil bool) func(ast.Expr
 		default:
 			return triU
 		}
-		o := objOf(m.info, other)
+		o := c19Target(m.info, ast.Unparen(other))
 		if o != nil && subst[o] != nil {
 			o = objOf(m.info, subst[o])
 		}
@@ -954,10 +954,10 @@ func c19Overwrites(info *types.Info, n ast.Node, vars map[types.Object]bool) boo
 	switch s := n.(type) {
 	case *ast.AssignStmt:
 		for i, l := range s.Lhs {
-			if !vars[objOf(info, l)] {
+			if !vars[c19Target(info, l)] {
 				continue
 			}
-			if len(s.Lhs) == len(s.Rhs) && vars[objOf(info, s.Rhs[i])] {
+			if len(s.Lhs) == len(s.Rhs) && vars[c19Target(info, s.Rhs[i])] {
 				continue
 			}
 			return true
